@@ -447,13 +447,68 @@ theorem vwFold_ok (l : List (Nat × X)) (s s' : X) (hs : s = pinf ∨ ∃ a, s =
             · rw [hp] at hq'; cases hq'
             · exact h2 (Or.inr ⟨q, hq, hq'⟩)
 
+/-- `+inf` or NaN: a running sum the final test `|sum − 1| ≤ 1e-12` rejects -/
+def BadSum (s : X) : Prop := s = pinf ∨ s = nan
+
+/-- ANY weights (NaN included): if the fold succeeds, a bad running sum stays bad, and from a finite running sum
+    either every weight is finite and non-negative or the result is bad (`+inf` / NaN) -/
+theorem vwFold_ok_any (l : List (Nat × X)) (s s' : X) (hs : BadSum s ∨ ∃ a, s = fin a)
+    (h : tryFoldE vwStep s l = .ok s') :
+    (BadSum s → BadSum s') ∧ ((∃ a, s = fin a) → (∀ p ∈ l, NonnegFin p.2) ∨ BadSum s') := by
+  induction l generalizing s with
+  | nil =>
+    simp only [tryFoldE, Except.ok.injEq] at h
+    subst h
+    exact ⟨id, fun _ => Or.inl (by simp)⟩
+  | cons p t ih =>
+    -- a bad next state: everything follows from the induction hypothesis
+    have bad : ∀ s1, vwStep s p = .ok s1 → BadSum s1 → BadSum s' := by
+      intro s1 hst hb
+      simp only [tryFoldE, hst] at h
+      exact (ih s1 (Or.inl hb) h).1 hb
+    cases hp : p.2 with
+    | nan =>
+      have hst : vwStep s p = .ok nan := by
+        rcases hs with (rfl | rfl) | ⟨a, rfl⟩ <;> simp [vwStep, hp]
+      have := bad nan hst (Or.inr rfl)
+      exact ⟨fun _ => this, fun _ => Or.inr this⟩
+    | ninf =>
+      simp [tryFoldE, vwStep, hp, real00] at h
+    | pinf =>
+      rcases hs with (rfl | rfl) | ⟨a, rfl⟩
+      · have := bad pinf (by simp [vwStep, hp, real00]) (Or.inl rfl)
+        exact ⟨fun _ => this, fun _ => Or.inr this⟩
+      · have := bad nan (by simp [vwStep, hp, real00]) (Or.inr rfl)
+        exact ⟨fun _ => this, fun _ => Or.inr this⟩
+      · have := bad pinf (by simp [vwStep, hp, real00]) (Or.inl rfl)
+        exact ⟨fun _ => this, fun _ => Or.inr this⟩
+    | fin b =>
+      by_cases hb : b < 0
+      · simp [tryFoldE, vwStep, hp, real00, hb] at h
+      · rcases hs with (rfl | rfl) | ⟨a, rfl⟩
+        · have := bad pinf (by simp [vwStep, hp, real00, hb]) (Or.inl rfl)
+          exact ⟨fun _ => this, fun _ => Or.inr this⟩
+        · have := bad nan (by simp [vwStep, hp, real00, hb]) (Or.inr rfl)
+          exact ⟨fun _ => this, fun _ => Or.inr this⟩
+        · have hst : vwStep (fin a) p = .ok (fin (a + b)) := by simp [vwStep, hp, real00, hb]
+          simp only [tryFoldE, hst] at h
+          obtain ⟨_, h2⟩ := ih (fin (a + b)) (Or.inr ⟨_, rfl⟩) h
+          refine ⟨fun hbad => (by rcases hbad with hbad | hbad <;> cases hbad), fun _ => ?_⟩
+          rcases h2 ⟨_, rfl⟩ with hall | hbad
+          · left
+            intro q hq
+            rcases List.mem_cons.mp hq with rfl | hq
+            · exact ⟨b, hp, not_lt.mp hb⟩
+            · exact hall q hq
+          · exact Or.inr hbad
+
 theorem validateWeights_unfold {α : Type} [RealLike α] (ws : List α) :
     validateWeights ws =
       if ws.isEmpty then .error (Err.mk "WeightsEmpty" [])
       else match tryFoldE vwStep (0.0 : α) (enumL ws) with
         | .error e => .error e
         | .ok sum =>
-          if RealLike.gt (RealLike.abs (sum - (1.0 : α))) (1E-12 : α)
+          if !(RealLike.le (RealLike.abs (sum - (1.0 : α))) (1E-12 : α))
           then .error (Err.mk "WeightsDoNotSumToOne" [sum]) else .ok () := rfl
 
 theorem enumL_sum_X (l : List X) : ((enumL l).map (fun p => p.2.toReal)).sum = (l.map X.toReal).sum := by
